@@ -181,6 +181,22 @@ CLAIMED = {
              "exercised here.",
         technique="exhaustive cross product of credentials x configurations x roles on real TLS handshakes",
         design_ref="5/C19", engine="B-enum"),
+    "C08": dict(
+        level="model_checking",
+        text="Stateless model checking of the real shardManagerImpl under a cooperative scheduler: shard_manager.go (and proxy_streams.go, "
+             "admin_stream_transfer.go) are rewritten at check time so that every lock acquisition, channel operation, select and goroutine "
+             "start is a scheduling point; in one synctest bubble per schedule exactly one goroutine runs at a time and the explorer "
+             "enumerates depth-first EVERY schedule with at most 2 (thorough 3) preemptions. Scenarios: old sender's exit path (close, "
+             "UnregisterShard, RemoveRemoteSendChan) || new sender's entry path || a deliverer; three successive incarnations; old receiver's "
+             "cleanup || new receiver's entry (TerminatePreviousLocalReceiver...) || an ack deliverer; all streams end. Oracle at quiescence: "
+             "the newest live incarnation owns the shard and its channels/cancel function/active-receiver entry, every delivery reported true "
+             "is in exactly one channel, no panic escapes, no deadlock, and after all streams ended every table is empty. A violating "
+             "schedule is re-executed before it is reported. Two genuine defects of the receiver cleanup are recorded as known findings.",
+        note="Trusted: the scheduler (goroutine identity by runtime id, baton discipline, synctest.Wait as 'reached next point'), verifrt.Now "
+             "(strictly increasing clock readings). Scheduling points only at synchronisation operations: accesses outside locks are not "
+             "interleaved (the shard manager has none on the fields checked). Bound: preemptions, not depth.",
+        technique="stateless DFS over thread interleavings of the implementation with iterative preemption bounding (controlled scheduler)",
+        design_ref="5/C08", engine="A-micro"),
     "C20": dict(
         level="model_checking",
         text="Bounded-exhaustive histories of stream opens on the real StreamWorkflowReplicationMessages handler with the real "
@@ -251,6 +267,9 @@ def main():
              "kind_free_text": "explicit-state / bounded-exhaustive enumeration driving the real code in-package"},
             {"name": "B-enum", "path": "/verif/harness", "serves_properties": ["C07", "C12", "C13", "C14", "C15", "C16", "C17", "C18", "C19"],
              "kind_free_text": "bounded-exhaustive enumeration of a finite structurally defined input space against a reference computed independently"},
+            {"name": "A-micro", "path": "/verif/rt/sched.go + /verif/instr (vinstr) + /verif/harness/proxy/c08_registry.go", "serves_properties": ["C08"],
+             "kind_free_text": "cooperative scheduler over AST-rewritten sources (locks, channel ops, go statements become scheduling points); "
+                               "stateless depth-first enumeration of schedules with preemption bounding, one synctest bubble per schedule"},
             {"name": "A-macro", "path": "/verif/harness/proxy/routing_*.go + /verif/rt/pool.go", "serves_properties": ["C01", "C02", "C03", "C04", "C06", "C20"],
              "kind_free_text": "explicit-state BFS whose transitions are executions of the real goroutines in testing/synctest bubbles; "
                                "successors by replay; 16 persistent GOMAXPROCS=1 worker processes"},
